@@ -15,6 +15,20 @@ from props.C13 import tok_obligations, FUNCS, STUBS, ASSUME
 PROP = "C05"
 
 
+def stmt_obligations(tier: str, seed: int, mode: str):
+    from engines.xh.runner import Obl
+    from props import stmtctx
+
+    obls = []
+    for d, sql, name, pre, post in stmtctx.select(tier, seed, 36 if mode == "errors" else 48):
+        si = [c[1] for c in stmtctx.CORPUS].index(sql)
+        key = f"stmt-{mode}:{d or 'base'}:{si}:{name}"
+        obls.append(Obl(key=key, harness="h_stmt.py", params={"dialect": d, "pre": pre, "post": post, "minlen": 0, "maxlen": 1, "mode": mode},
+                        cond_timeout=200 if tier == "quick" else 900, path_timeout=60, twin_timeout=90,
+                        desc={"dialect": d or "base", "statement": sql, "sql": pre + "<h>" + post, "mode": mode}, group=key))
+    return obls
+
+
 def watchdog_probe(o, r):
     """Plain-interpreter search of the obligation's own bound under an alarm; only used to obtain a witness."""
     env = dict(os.environ, XH_PARAMS=json.dumps(o.params), PYTHONPATH=VERIF + ":" + os.environ.get("VERIF_REPO", "/repo"))
@@ -38,8 +52,12 @@ def main(argv=None) -> int:
     ap.add_argument("--only", default=None)
     a = ap.parse_args(argv)
     obls, bounds = tok_obligations(a.tier, a.seed, "term")
+    obls += stmt_obligations(a.tier, a.seed, "errors")
+    bounds["parser"] = ("statements of props/stmtctx.py CORPUS (core grammar + 6 dialect-specific ones) cut at a token boundary; the hole h (inserted "
+                        "before a token, glued to it, or replacing it) ranges over the alphabet a 1 space , ( ) ' \" + - * / = < > . ; : | & ! % [ ] LF "
+                        "with len(h) <= 1; the whole tokenize -> parse -> generate pipeline of that dialect runs symbolically")
     bounds["step_budget"] = "calls of TokenizerCore methods (_advance,_chars,_add,_scan*,_extract*) <= 64*(len(sql)+1)^2"
-    bounds["outside"] += "; parse/transpile/generate on arbitrary text (the parser is not symbolically executable, DESIGN 2) -- NOT decided"
+    bounds["outside"] += "; parser inputs other than one-character holes in the corpus statements; optimizer entry points"
     if a.only:
         obls = [o for o in obls if a.only in o.key]
     return run_e1(
